@@ -36,7 +36,7 @@ META = dict(
         'which prefixes to extend, never to judge',
         'element hashing/equality of ints and Predicate objects is correct (C18 is about the containers)'],
     min_events={'any': {'ops_executed': 20000, 'ops_raised_and_checked_unchanged': 500, 'k4_checks': 20000}},
-    budget=dict(quick=1500, thorough=1500),
+    budget=dict(quick=1500, thorough=7200),
     unit_timeout=dict(quick=900, thorough=3000),
 )
 
